@@ -15,6 +15,8 @@ for sid in sorted(os.listdir(S)):
     if hist:
         if "NEUTRALISED" in hist:
             caught = "no longer a violation"
+        if "NOT CAUGHT" in hist:
+            caught = "not caught"
         caught += "; " + hist
     if "confirmation" in m:
         suite = "green; demo fails with / passes without" if m["confirmation"].get("confirmed") else "not confirmed"
